@@ -126,9 +126,11 @@ type Sched struct {
 	Stats    Stats
 	evMu     sync.Mutex
 	Events   []Event
-	OnStep   func(s *Sched) // invariants, evaluated at every quiescent point
+	OnStep   func(s *Sched)    // invariants, evaluated at every quiescent point
+	Acted    bool              // set by OnStep hooks that woke goroutines
 	ForceAt  map[uint64]string // step -> action key prefix that must be picked at that step if enabled
-	TraceOut func(string)   // optional verbose trace
+	TraceOut func(string)      // optional verbose trace
+	TraceAll bool              // include the enabled set in every trace line
 }
 
 // Event is a history entry stamped with the scheduler step.
@@ -245,10 +247,60 @@ func (s *Sched) uniqueName(name string) string {
 	return name
 }
 
+// parentOf parses "created by F in goroutine N" from the current goroutine's
+// stack dump (goroutines started by un-instrumented code such as net/http).
+func parentOf() (fn string, parent uint64) {
+	buf := make([]byte, 64<<10)
+	n := runtime.Stack(buf, false)
+	st := string(buf[:n])
+	i := strings.LastIndex(st, "\ncreated by ")
+	if i < 0 {
+		return "", 0
+	}
+	line := st[i+len("\ncreated by "):]
+	if j := strings.IndexByte(line, '\n'); j >= 0 {
+		line = line[:j]
+	}
+	k := strings.LastIndex(line, " in goroutine ")
+	if k < 0 {
+		return "", 0
+	}
+	fn = line[:k]
+	if j := strings.LastIndex(fn, "/"); j >= 0 {
+		fn = fn[j+1:]
+	}
+	parent, _ = strconv.ParseUint(strings.TrimSpace(line[k+len(" in goroutine "):]), 10, 64)
+	return fn, parent
+}
+
+// childOfKnown derives an identity from a known parent goroutine and the
+// creating function; nil if the parent is unknown.
+func (s *Sched) childOfKnown(gid uint64) *G {
+	fn, parent := parentOf()
+	if parent == 0 {
+		return nil
+	}
+	v, ok := s.gs.Load(parent)
+	if !ok {
+		return nil
+	}
+	pg := v.(*G)
+	s.mu.Lock()
+	pg.spawn["~"+fn]++
+	k := pg.spawn["~"+fn]
+	s.mu.Unlock()
+	g := &G{ID: pg.ID + ">~" + fn + "#" + strconv.Itoa(k), spawn: map[string]int{}}
+	s.gs.Store(gid, g)
+	return g
+}
+
 func (s *Sched) self() *G {
 	gid := goid()
 	if v, ok := s.gs.Load(gid); ok {
 		return v.(*G)
+	}
+	if g := s.childOfKnown(gid); g != nil {
+		return g
 	}
 	sig := stackSig(2, 5)
 	s.mu.Lock()
@@ -284,6 +336,23 @@ func Adopt(name string) string {
 	g := &G{ID: s.uniqueName(name), spawn: map[string]int{}}
 	s.gs.Store(gid, g)
 	return g.ID
+}
+
+// AdoptChild is like Adopt but prefers an identity derived from a known parent
+// goroutine (deterministic even when several such goroutines start at once).
+func AdoptChild(fallback string) string {
+	s := cur.Load()
+	if s == nil {
+		return ""
+	}
+	gid := goid()
+	if v, ok := s.gs.Load(gid); ok {
+		return v.(*G).ID
+	}
+	if g := s.childOfKnown(gid); g != nil {
+		return g.ID
+	}
+	return Adopt(fallback)
 }
 
 // Spawn allocates the identity of a child goroutine; called in the parent by
@@ -467,9 +536,13 @@ func (s *Sched) Run(main func()) {
 			break
 		}
 		if s.OnStep != nil {
+			s.Acted = false
 			s.OnStep(s)
 			if s.Aborted != "" {
 				break
+			}
+			if s.Acted {
+				continue // a hook woke goroutines: wait for quiescence again
 			}
 		}
 		if int(s.step.Load()) >= s.Cfg.MaxSteps {
@@ -578,7 +651,15 @@ func (s *Sched) stepOnce() bool {
 	s.Decisions = append(s.Decisions, a.Key)
 	s.hash = HashStr(s.hash^uint64(len(acts)), a.Key)
 	if s.TraceOut != nil {
-		s.TraceOut(fmt.Sprintf("%d t=%v pick %s of %d", n, now.Sub(s.start), a.Key, len(acts)))
+		if s.TraceAll {
+			var ks []string
+			for _, x := range acts {
+				ks = append(ks, x.Key)
+			}
+			s.TraceOut(fmt.Sprintf("%d t=%v pick %s of %d   [%s]", n, now.Sub(s.start), a.Key, len(acts), strings.Join(ks, " ")))
+		} else {
+			s.TraceOut(fmt.Sprintf("%d t=%v pick %s of %d", n, now.Sub(s.start), a.Key, len(acts)))
+		}
 	}
 	if a.Key == tickKey {
 		s.tick(st, now, len(acts) > 1)
